@@ -76,10 +76,10 @@ def dispatchC17 : List Str → Option (List Str)
   | cmd :: args =>
     if cmd == "c17.tree".toList then
       match args with
-      | v :: base :: cwd :: enc :: toks =>
+      | v :: base :: cwd :: enc :: pcs :: toks =>
         let b := absPath base
         let c := absPath cwd
-        match getPageTreeRaw CallSites.gen (parseVariant v) enc (parseTree toks) with
+        match getPageTreeProj CallSites.gen (parseVariant v) enc (splitList RS pcs) (parseTree toks) with
         | .page top =>
           some ("ok".toList :: (preorder top).map (showNode b c top) ++ ["--".toList] ++ (outputs top).map showOut)
         | .abort p => some ["abort".toList, showPath p]
@@ -88,6 +88,11 @@ def dispatchC17 : List Str → Option (List Str)
     else if cmd == "c17.spec".toList then
       match args with
       | enc :: toks => some ("ok".toList :: (expPages (viewL enc (parseTree toks))).map showPath)
+      | _ => some ["bad-request".toList]
+    else if cmd == "c17.assets".toList then
+      match args with
+      | enc :: pcs :: toks =>
+        some ("ok".toList :: (expAssets (splitList RS pcs) (viewL enc (parseTree toks))).map showOut)
       | _ => some ["bad-request".toList]
     else if cmd == "c17.media".toList then
       match args with
